@@ -69,9 +69,12 @@ type World struct {
 	S       *vrt.Sched
 	GroupID uuid.UUID
 	Peers   []uint64
-	Nodes   []*Node
-	Net     []*Msg
-	NewApp  func(n *Node) App
+	// Strangers are members of the cluster every node knows the address of but that are NOT replicas of this group (a
+	// partition group is usually smaller than the cluster)
+	Strangers []uint64
+	Nodes     []*Node
+	Net       []*Msg
+	NewApp    func(n *Node) App
 	// Violations found by monitors during transitions.
 	Violations    []Violation
 	seq           int
@@ -247,6 +250,9 @@ func (w *World) Start(id uint64) {
 			if p != id {
 				conn.AddNode(p, world.Addr(p))
 			}
+		}
+		for _, p := range w.Strangers {
+			conn.AddNode(p, world.Addr(p))
 		}
 		n.Conn = conn
 		n.Transport = raft.NewTransport(id, world.Addr(id), conn)
